@@ -37,6 +37,7 @@ CONSTANTS
     DefTTLCfg,   \* TokenIntrospectionConfig.DefaultTTLSeconds  (0 = default 300)
     W,           \* ticks per limiter window
     MaxT,        \* last tick
+    Ticks,       \* lengths (in ticks) the clock may advance by in one Tick step
     Mode,        \* "mc" | "edges" | "tree"
     Depth        \* tree mode: emit behaviours of exactly this length
 
@@ -390,12 +391,12 @@ EnableRejected(why) ==
     /\ Record([a |-> "EnableRejected", args |-> [why |-> why, rate |-> RateCfg, ttl |-> DefTTLCfg],
                exp |-> [err |-> TRUE, adv |-> FALSE]])
 
-Tick ==
+Tick(d) ==
     /\ Budget
-    /\ now < MaxT
-    /\ now' = now + 1
+    /\ now + d <= MaxT
+    /\ now' = now + d
     /\ UNCHANGED <<enabled, authfn, lim, reach, adm>>
-    /\ Record([a |-> "Tick", args |-> [d |-> 1], exp |-> [x |-> 0]])
+    /\ Record([a |-> "Tick", args |-> [d |-> d], exp |-> [x |-> 0]])
 
 Init ==
     /\ enabled = FALSE
@@ -412,7 +413,7 @@ Init ==
 RealOutcomes == Outcomes \ {"none"}
 
 Next ==
-    \/ Tick
+    \/ \E d \in Ticks : Tick(d)
     \/ Enable
     \/ \E why \in {"no_resolver", "no_principals", "blank_principals"} : EnableRejected(why)
     \/ \E c \in Callers, k \in Creds :
